@@ -98,6 +98,10 @@ fn threshold(h: &Value) -> f64 {
     }
 }
 
+fn is_dist_all(dense: &[Vec<f64>; 2], w: &[Vec<Vec<i64>>; 2]) -> bool {
+    (0..2).all(|pl| split(&dense[pl], &w[pl]).iter().all(|g| is_dist(g)))
+}
+
 fn is_dist(v: &[f64]) -> bool {
     v.iter().all(|p| p.is_finite() && *p >= 0.0) && (v.iter().sum::<f64>() - 1.0).abs() < 1e-9
 }
@@ -120,6 +124,8 @@ pub fn replay_trunc(args: &Args) {
         let res = util::catch(move || {
             let game = tree::build(&tree).expect("carrier game");
             let mut strat = game.from_named(named_from(&wc, [0, 0])).expect("grid profile");
+            // a history on ONE object: evaluate, truncate in place, evaluate again (below)
+            let _ = strat.get_info();
             strat.truncate(h);
             let once = strat.verif_dense();
             let named: Vec<Vec<(String, Vec<(String, f64)>)>> = strat
@@ -136,14 +142,26 @@ pub fn replay_trunc(args: &Args) {
                 info.player_regret(PlayerNum::One),
                 info.player_regret(PlayerNum::Two),
             ];
+            // the same profile imported afresh must evaluate to the same numbers
+            let fresh = game.from_named(named.iter().cloned().collect::<Vec<_>>().try_into().unwrap_or_else(|_| panic!("two sides")));
+            let fresh_nums = fresh.ok().map(|f| {
+                let i = f.get_info();
+                [i.player_utility(PlayerNum::One), i.player_regret(PlayerNum::One), i.player_regret(PlayerNum::Two)]
+            });
             strat.truncate(h);
             let twice = strat.verif_dense();
-            (once, twice, named, nums)
+            (once, twice, named, nums, fresh_nums)
         });
         let mut bad = Vec::new();
         match res {
             Err(msg) => bad.push(json!({"what": "panic", "observed": msg})),
-            Ok((once, twice, named, nums)) => {
+            Ok((once, twice, named, nums, fresh_nums)) => {
+                if let Some(f) = fresh_nums {
+                    if is_dist_all(&once, &w) && nums.iter().zip(f.iter()).any(|(a, b)| !util::close(*a, *b, 1e-12)) {
+                        bad.push(json!({"what": "evaluation of the truncated object differs from the evaluation of the same profile imported afresh",
+                            "class": "history", "observed": nums.to_vec(), "fresh": f.to_vec()}));
+                    }
+                }
                 let mut ix = 0;
                 for pl in 0..2 {
                     let got = split(&once[pl], &w[pl]);
@@ -227,8 +245,9 @@ pub fn replay_dist(args: &Args) {
             Err(msg) => bad.push(json!({"what": "panic outside distance", "observed": msg})),
             Ok((fwd, bwd, slf)) => {
                 if panics {
-                    if fwd.is_ok() || bwd.is_ok() {
-                        bad.push(json!({"class": "panic", "what": "no panic for non-positive p", "p": p}));
+                    if fwd.is_ok() || bwd.is_ok() || slf.is_ok() {
+                        bad.push(json!({"class": "panic", "what": "no panic for non-positive p", "p": p,
+                            "calls": {"s_vs_t": fwd.is_ok(), "t_vs_s": bwd.is_ok(), "s_vs_itself": slf.is_ok()}}));
                     }
                 } else {
                     match (fwd, bwd, slf) {
@@ -395,6 +414,9 @@ pub fn replay_import(args: &Args) {
             "tiny" => 2f64.powi(-1070),
             "huge" => 2f64.powi(1000),
             "max" => 2f64.powi(1023),
+            // totals of 2 or 3 weight units land within 1e-9 of one without being one
+            "near-half" => (1.0 - 4e-10) / 2.0,
+            "near-third" => (1.0 + 3e-10) / 3.0,
             other => panic!("scale {other}"),
         };
         let tree = carrier(&case["sides"]);
